@@ -10,7 +10,6 @@ epoll_wait / epoll_ctl / readv / writev / read / write / close interposed, fault
   remotequeue  rq_*          vs Lean model Proto/RemoteQueue (parametric theorems, Props/C14)
   epollop      rd_* / wr_*   vs Lean model Proto/EpollOp   (instance theorems, Props/C14_ops, C14_cancel)
 """
-import re
 from ..atomic import AtomicPart
 from ..runner import run_check
 
@@ -19,34 +18,11 @@ RQ_SCENARIOS = ["rq_one", "rq_two", "rq_burst", "rq_stop_early"]
 IO_SCENARIOS = ["rd_ready", "rd_park", "rd_eagain_fault", "rd_short", "rd_cancel_parked", "rd_cancel_race",
                 "rd_cancel_before_start", "rd_error_start", "rd_error_retry", "wr_ready", "wr_park", "wr_cancel_parked"]
 
-# A defect of /repo shows up in every scenario that exercises it; the verdict is keyed by WHAT fired,
-# not by the scenario, so that one defect is one site.  (Everything else keeps its scenario.)
-CANON = [
-    (re.compile(r"monitor: op\d+: operation state was written after the operation completed"),
-     "io_epoll cancel path: operation state written after the operation completed (stopCallback_ never destructed in complete_with_done)"),
-    (re.compile(r"monitor: op\d+ completed but an epoll registration still points to it"),
-     "io_epoll cancel before/while parking: operation completed but its epoll registration is still in the kernel"),
-    (re.compile(r"monitor: epoll_wait delivered an event for an operation that has already completed"),
-     "io_epoll cancel before/while parking: operation completed but its epoll registration is still in the kernel"),
-    (re.compile(r"monitor: (readv|writev) failed with EIO but the (read|write) did not complete with that error"),
-     "io_epoll start_io: syscall failure taken for would-block (-1 == -EPERM), operation parked, errno lost"),
-    (re.compile(r"monitor: (readv|writev) failed with EIO but the (read|write) completed with error 1"),
-     "io_epoll on_read_complete: syscall failure reported as EPERM (-int(-1)), errno lost"),
-]
-
-
-def canon_site(site):
-    for rx, name in CANON:
-        if rx.search(site):
-            return name
-    return site
-
-
 class IoPart(AtomicPart):
     def __init__(self, name, model, scenarios):
         super().__init__(name, "scn_c14.cpp", LIBS, model, scenarios, extra_srcs=["rt_io.cpp"],
-                         quick=dict(preemptions=2, max_execs=1500), thorough=dict(preemptions=3, max_execs=40000),
-                         random_execs=(150, 3000), on_runs=self.collect)
+                         quick=dict(preemptions=2, max_execs=1000), thorough=dict(preemptions=3, max_execs=40000),
+                         random_execs=(100, 3000), on_runs=self.collect)
 
     def collect(self, scn, runs, cov):
         fc = cov.setdefault("syscall_faults_fired", {})
@@ -57,16 +33,6 @@ class IoPart(AtomicPart):
                     fc[k[len("rtio_fault_"):]] = fc.get(k[len("rtio_fault_"):], 0) + v
                 elif k.startswith("rtio_"):
                     sc[k[len("rtio_"):]] = sc.get(k[len("rtio_"):], 0) + v
-
-    def run(self, tier, seed, verdict, cov, driver):
-        n0 = len(verdict.violations)
-        super().run(tier, seed, verdict, cov, driver)
-        for k in range(n0, len(verdict.violations)):
-            site, what, payload, found = verdict.violations[k]
-            c = canon_site(site)
-            if c != site:
-                payload = dict(payload, first_seen_at=site)
-            verdict.violations[k] = (c, what, payload, found)
 
 
 def run(tier, seed, replay=None):
